@@ -102,8 +102,13 @@ func partition(units []core.Unit, n int) [][]int {
 	return out
 }
 
+var shardCap int
+
 func nShards() int {
 	n := runtime.NumCPU()
+	if shardCap > 0 && n > shardCap {
+		n = shardCap
+	}
 	if s := os.Getenv("VERIF_SHARDS"); s != "" {
 		if v, err := strconv.Atoi(s); err == nil && v > 0 {
 			n = v
@@ -126,6 +131,7 @@ func shard(args []string) int {
 		fmt.Fprintln(os.Stderr, "unknown property", args[0])
 		return 2
 	}
+	shardCap = p.Shards
 	tier := args[1]
 	seed, _ := strconv.ParseUint(args[2], 10, 64)
 	work := args[3]
@@ -193,8 +199,24 @@ func replay(args []string) int {
 		fmt.Fprintf(os.Stderr, "replay: no oracle %q in %s\n", v.Case.Oracle, p.ID)
 		return 2
 	}
-	c.Do(v.Case)
+	tries := 1
+	if p.Race && v.Oracle == "race-detector" {
+		tries = 10 // a schedule cannot be replayed: re-run the workload and see whether the race report recurs
+	}
+	for i := 0; i < tries; i++ {
+		c.Do(v.Case)
+	}
 	r := c.Report()
+	if p.Post != nil {
+		pv, _ := p.Post(&core.PostInfo{Work: os.Getenv("VERIF_WORK"), Tier: tier, Seed: v.Seed, Coverage: map[string]map[string]int64{}, Counters: map[string]int64{}})
+		for _, x := range pv {
+			if v.Oracle != "race-detector" || x.Signature == v.Signature {
+				r.Violations = append(r.Violations, x)
+			} else {
+				fmt.Printf("replay: a different race was reported: %s\n", x.Signature)
+			}
+		}
+	}
 	for _, s := range r.Inconcl {
 		fmt.Println("INCONCLUSIVE:", s)
 	}
@@ -258,6 +280,7 @@ func driver(args []string) int {
 		fmt.Fprintln(os.Stderr, "unknown property", args[0])
 		return 2
 	}
+	shardCap = p.Shards
 	tier, work, verif := args[1], args[2], args[3]
 	if tier != "quick" && tier != "thorough" {
 		fmt.Fprintln(os.Stderr, "tier must be quick or thorough")
